@@ -1664,7 +1664,7 @@ def stream_sentinel(ctx, broken_tie=False):
     root_base = os.path.join(ctx.tmp, 'trees')
     os.makedirs(root_base, exist_ok=True)
     os.environ['C12_SENTINEL_DIR'] = sdir
-    ncase = ctx.n(40, 400) * (2 if (broken_tie or INTENSIFY[0] > 1) else 1)
+    ncase = ctx.n(40, 240) * (2 if (broken_tie or INTENSIFY[0] > 1) else 1)
     nq = ctx.n(21, 36)
     cases = []
     fixed_variants = ['plain', 'plain', 'json-benign', 'json-unsafe', 'json-env', 'json-both']
@@ -1862,12 +1862,33 @@ def run(ctx):
 
 
 def replay(ctx, path):
+    if not os.path.isabs(path) and not os.path.exists(path):
+        path = os.path.join(common.VERIF, path)
     rec = json.load(open(path))
     print(json.dumps({k: v for k, v in rec.items() if k != 'case'}, indent=1, ensure_ascii=False)[:3000])
     case = rec.get('case')
-    if not case:
-        return 0
     common.setup_jedi(os.path.join(ctx.tmp, 'cache'))
+    inp = rec.get('input') or {}
+    if 'call_effect' in inp or 'call_effect' in rec:         # swap stream
+        m = inp if 'call_effect' in inp else rec
+        c = (m['function'], m['initial_sys_path'], m['sys_path_arg'], m['call_effect'], 'x', m['call_raises'])
+        print('implementation now:', common.pmap(_swap_task, [c], procs=1)[0])
+        print('model:', common.coq_show(IMPORTS, [
+            'let r := exec %s {| on_path := %s; raises := %s |} %s (init_mem %s) in (sys_path (fst r), snd r)' % (
+                g_opt(c[2], gsl), g_effect(c[3], c[4]), EXC_MODEL[c[5]],
+                'load_module_prog' if c[0] == 'load' else 'get_module_info_prog', gsl(c[1]))]))
+        return 0
+    if 'finder' in inp or isinstance(case, dict) and 'finder' in case:       # route stream
+        m = inp if 'finder' in inp else case
+        c = (m['auto_import_modules'], m['import_names'], m['finder'], m['load_unsafe_extensions'],
+             m['environment_sys_path'], m['sys_path'], m.get('top_level', True))
+        print('implementation now:', common.pmap(_route_task, [c], procs=1)[0])
+        print('model:', common.coq_show(IMPORTS, [
+            'import_route {| auto_import := %s; unsafe := %s; env_path := %s |} %s %s %s %s' % (
+                gsl(c[0]), g_bool(c[3]), gsl(c[4]), gs(c[1][0]), gs('.'.join(c[1])), g_fr(c[2], c[1]), gsl(c[5]))]))
+        return 0
+    if not isinstance(case, dict) or 'tree' not in case:
+        return 0
     sdir = os.path.join(ctx.tmp, 'sentinels')
     os.makedirs(sdir, exist_ok=True)
     root_base = os.path.join(ctx.tmp, 'trees')
